@@ -107,13 +107,19 @@ def runCase (line : String) : String :=
   let doc := if field toks "doc" "1" = "1" then some 1 else none
   -- receivers of the successive calls (form=meth): a 1, c 2, b 3, s 4; functions: one call, receiver 0
   let recvToks := if form = "meth" then (field toks "recv" "a").splitOn "," else if form = "cls" then ["a"] else ["-"]
-  let recvId := fun (t : String) => if t = "a" then 1 else if t = "c" then 2 else if t = "b" then 3 else if t = "s" then 4 else 0
-  let recvName := fun (n : Nat) => if n = 1 then "a" else if n = 2 then "c" else if n = 3 then "b" else if n = 4 then "s" else "?"
-  let m : Method := if ran then scriptedMethod 7 98 doc outcome leak rec_
+  let recvId := fun (t : String) => if t = "a" then 1 else if t = "c" then 2 else if t = "b" then 3 else if t = "s" then 4
+    else if t = "e" then 5 else 0
+  let recvName := fun (n : Nat) => if n = 1 then "a" else if n = 2 then "c" else if n = 3 then "b" else if n = 4 then "s"
+    else if n = 5 then "e" else "?"
+  let spawn := field toks "spawn" "0" = "1"
+  let m : Method := if ran then
+      (if spawn then fun recv => { scriptedMethod 7 98 doc outcome leak rec_ recv with
+                                   run := spawning (scriptedMethod 7 98 doc outcome leak rec_ recv).run }
+       else scriptedMethod 7 98 doc outcome leak rec_)
     else fun _ => { id := 7, name := 98, doc := doc, run := unbound outcome }
-  let c0 : Ctx := if root = "1" then { state := some 0, scope := some 0 } else {}
+  let c0 : Ctx := if root = "1" then { state := some 0, scope := some 0, other := 1 } else {}
   let w0 : World := if root = "1" then { nodes := [{ name := 99, parent := none }] } else {}
-  let cw := enterSite (site.map (fun p => ((if p.1 = 'u' then 1 else 0), p.2))) 0 c0 w0
+  let cw := enterSite (site.map (fun p => ((if p.1 = 'u' then 1 else if p.1 = 'a' then 2 else 0), p.2))) 0 c0 w0
   let isAsyn := deco.startsWith "asyn"
   let isTraced := deco.startsWith "traced"
   let calls := recvToks.map (fun t => (recvId t, 0))
@@ -130,7 +136,11 @@ def runCase (line : String) : String :=
     | some c => showFP fname w c
     | none => "-"
   let after := showFP fname w r.2.1
-  let where_ := if !ran then "-" else (if isAsyn then "other" else "loop") ++ (if block = "1" then ",beat" else "")
+  -- a spawned task is still pending when the call returns and is awaited by the caller's innermost async scope iff it
+  -- joined the caller's task group
+  let spawnOut := if !spawn then "" else
+    if w.spawns.all (· == cw.1.other) then ";pending;joined" else ";blocked;joined"
+  let where_ := if !ran then "-" else (if isAsyn then "other" else "loop") ++ (if block = "1" then ",beat" else "") ++ spawnOut
   let posToks := (if form = "fn" then [] else ["self"]) ++ (if pos = "-" then [] else (pos.splitOn ",").map showVal)
   let posRepr := if posToks.isEmpty then "-" else "(" ++ ",".intercalate posToks ++ ")"
   let kwRepr := if kw = "-" then "-" else
